@@ -159,6 +159,15 @@ CHECKS["C18"] = dict(
     note="Only rejection is asserted; an exception type other than the documented ones is recorded as a note. Two catalogue entries are rejected by a later statement rather than by their own guard (longer HDC limits, 3-D model for direct sampling), which the property allows.",
     design="7/C18",
 )
+CHECKS["C20"] = dict(
+    technique="property-based testing (Hypothesis): round trip (write -> parse, synthetic file -> DataFrame) and read-back of the data held by matplotlib artists on a real Agg Axes (recording wrapper for Axes.contour)",
+    text="save_contour_coordinates: generated 2-D/3-D coordinate arrays and all six contour classes, semantics incl. ';', unicode, '$..$', paths with/without extension and dotted directories: file at the "
+         "expected path, header, N rows in order, ';' delimiter, values within 0.5e-6. plot_2D_contour: closed polyline == coordinates (+first point, axes exchanged iff swap_axis), sample and design-condition "
+         "scatters as supplied / computed, return value. plot_dependence_functions, plot_histograms_of_interval_distributions, plot_2D_isodensity (grid Z == model.pdf at the plotted node, limits, levels, "
+         "sample scatter) and plot_marginal_quantiles on fitted models. read_ec_benchmark_dataset: all rows in order, values, DatetimeIndex, column names for synthetic files of 1-10000 rows.",
+    note="The artists' data are the observation point (Agg backend); theoretical quantiles compared for unconditional dimensions.",
+    design="7/C20",
+)
 NOT_YET = {}
 
 def main():
